@@ -148,7 +148,28 @@ fn finish_check(prop: &str, tier: &str, batch_seed: u64, t0: Instant, main: Batc
         let path = format!("{}/replays/{}-{}-{}.json", vdir, prop, supervisor::slug(id), doc.u64_of("index"));
         let _ = std::fs::write(&path, doc.to_pretty());
         // layer-B and process-level docs carry their own replay kind
-        let (ok, text) = supervisor::replay_in_fresh_process(&path, id, 60);
+        let (mut ok, mut text) = supervisor::replay_in_fresh_process(&path, id, 60);
+        if !ok && doc.get("layer_b").is_none() && !matches!(clause.as_str(), "abort" | "hang") && doc.get("extra").map(|e| e.get("worker_history").is_none() && e.get("audit_history").is_none()).unwrap_or(true) {
+            // maybe the violation depends on what the worker's thread (or process) compiled before this run:
+            // replay again after re-running that worker's earlier runs
+            let workers = env_u64("SYLT_SIM_WORKERS", 16);
+            let index = doc.u64_of("index");
+            let mut d2 = doc.clone();
+            let mut extra = doc.get("extra").cloned().unwrap_or(J::obj());
+            extra.put("worker_history", J::obj().set("start", J::u(index % workers)).set("stride", J::u(workers)).set("index", J::u(index)).set("verif_seed", J::u(batch_seed)));
+            d2.put("extra", extra);
+            d2.put("history_dependent", J::Bool(true));
+            d2.put("detail", J::s(&format!("{} [reproduces only after the {} earlier runs of the same worker process: the outcome depends on what was compiled before]", doc.str_of("detail"), index / workers)));
+            let _ = std::fs::write(&path, d2.to_pretty());
+            let (ok2, text2) = supervisor::replay_in_fresh_process(&path, id, 600);
+            if ok2 {
+                ok = true;
+                text = text2;
+                println!("NOTE: {} reproduces only together with the worker's earlier runs (history-dependent)", id);
+            } else {
+                let _ = std::fs::write(&path, doc.to_pretty());
+            }
+        }
         if !ok {
             println!("UNSTABLE: the violation {} did not reproduce from {} in a fresh process:\n{}", id, path, text);
             harness_error = true;
@@ -233,6 +254,10 @@ fn finish_check(prop: &str, tier: &str, batch_seed: u64, t0: Instant, main: Batc
         }
     }
     if st.counters.get("harness.worker_failed_to_start").copied().unwrap_or(0) > 0 {
+        harness_error = true;
+    }
+    if let Some(n) = st.counters.get("harness.c12_generator_self_check_failed") {
+        println!("HARNESS-ERROR: the C12 generator failed its self-check in {} run(s)", n);
         harness_error = true;
     }
 
